@@ -5,7 +5,9 @@
 use bridge::err::guarded;
 use bridge::rt::{hex, par_items, Stats};
 use bridge::Out;
-use desert::{BinaryInput, DeserializationContext, OwnedInput, SliceInput};
+use desert::adt::{AdtDeserializer, AdtMetadata};
+use desert::{BinaryDeserializer, BinaryInput, DeserializationContext, Evolution, OwnedInput, SliceInput};
+use std::cell::RefCell;
 use refmodel::tamper::{self, ALPHABET};
 use serde_json::json;
 
@@ -137,6 +139,56 @@ fn remaining<I: BinaryInput>(i: &mut I) -> usize {
     n
 }
 
+// The context *inside a chunk*: the input is the content of chunk 1 of an evolved record
+// (`{ pre: u16 } + FieldAdded("g")`), so the region the operations run in starts at a non-zero
+// offset of the underlying buffer and ends before its end (two more bytes follow the record). A
+// field codec runs the sequence on the context it is handed. Everything observable must be what a
+// `SliceInput` over the chunk's bytes alone shows.
+thread_local! {
+    static PROBE: RefCell<Option<(Vec<u8>, Vec<Op>, Vec<String>, usize)>> = const { RefCell::new(None) };
+}
+
+struct OpsProbe;
+
+impl BinaryDeserializer for OpsProbe {
+    fn deserialize(ctx: &mut DeserializationContext<'_>) -> desert::Result<Self> {
+        let (input, seq) = PROBE.with(|p| p.borrow().as_ref().map(|x| (x.0.clone(), x.1.clone())).expect("probe"));
+        let mut outs = Vec::new();
+        let mut rp = 0usize;
+        for op in &seq {
+            let before = rp;
+            let _ = ref_step(&input, &mut rp, *op);
+            outs.push(step(ctx, *op, before, input.len()));
+        }
+        let rest = remaining(ctx);
+        PROBE.with(|p| {
+            if let Some(x) = p.borrow_mut().as_mut() {
+                x.2 = outs;
+                x.3 = rest;
+            }
+        });
+        Ok(OpsProbe)
+    }
+}
+
+fn run_in_chunk(input: &[u8], seq: &[Op]) -> desert::Result<(Vec<String>, usize)> {
+    let mut stream = vec![1u8];
+    stream.extend(refmodel::wire::vari(2));
+    stream.extend(refmodel::wire::vari(input.len() as i32));
+    stream.extend([0xaa, 0xbb]);
+    stream.extend_from_slice(input);
+    stream.extend([0x77, 0x77]);
+    PROBE.with(|p| *p.borrow_mut() = Some((input.to_vec(), seq.to_vec(), Vec::new(), usize::MAX)));
+    let md = AdtMetadata::new(vec![Evolution::InitialVersion, Evolution::FieldAdded { name: "g".into() }]);
+    let mut ctx = DeserializationContext::new(&stream);
+    let v = ctx.read_u8()?;
+    let mut d = AdtDeserializer::new(&md, &mut ctx, v)?;
+    let _pre: u16 = d.read_field("pre", None)?;
+    let _: OpsProbe = d.read_field("g", None)?;
+    let (outs, rest) = PROBE.with(|p| p.borrow_mut().take().map(|x| (x.2, x.3)).expect("probe"));
+    Ok((outs, rest))
+}
+
 fn run_seq(prop: &str, input: &[u8], seq: &[Op], st: &mut Stats) {
     st.states += 1;
     let key = format!("ops:{}|{:?}", hex(input), seq);
@@ -165,7 +217,7 @@ fn run_seq(prop: &str, input: &[u8], seq: &[Op], st: &mut Stats) {
                     }
                     rest = remaining(&mut i);
                 }
-                _ => {
+                2 => {
                     let mut i = DeserializationContext::new(input);
                     for op in seq {
                         let before = rp;
@@ -174,13 +226,16 @@ fn run_seq(prop: &str, input: &[u8], seq: &[Op], st: &mut Stats) {
                     }
                     rest = remaining(&mut i);
                 }
+                _ => return run_in_chunk(input, seq),
             }
             Ok((outs, rest))
         })
     };
-    let results: Vec<(Out<(Vec<String>, usize)>, usize)> = (0..3).map(run_impl).collect();
-    st.transitions += 3 * seq.len() as u64;
-    let names = ["SliceInput", "OwnedInput", "DeserializationContext"];
+    // (an empty chunk has no region to speak of: three implementations only)
+    let n_impl = if input.is_empty() { 3 } else { 4 };
+    let results: Vec<(Out<(Vec<String>, usize)>, usize)> = (0..n_impl).map(run_impl).collect();
+    st.transitions += (n_impl * seq.len()) as u64;
+    let names = ["SliceInput", "OwnedInput", "DeserializationContext", "DeserializationContext(inside a chunk)"];
     // reference
     let mut rp = 0usize;
     let refs: Vec<Option<String>> = seq.iter().map(|op| ref_step(input, &mut rp, *op)).collect();
@@ -195,7 +250,17 @@ fn run_seq(prop: &str, input: &[u8], seq: &[Op], st: &mut Stats) {
                 );
                 return;
             }
-            Out::Err(_) => unreachable!(),
+            Out::Err(e) => {
+                // only the in-chunk run has a fallible frame around it, and the frame is valid
+                if prop == "C15" {
+                    st.violate(
+                        format!("C15 source impl={} the record around the chunk is rejected", names[w]),
+                        key.clone(),
+                        json!({"input": hex(input), "ops": format!("{seq:?}"), "error": format!("{e:?}")}),
+                    );
+                    return;
+                }
+            }
             Out::Ok((outs, rest)) => {
                 if *max_alloc > 64 * 1024 && prop == "C05" {
                     st.violate(
@@ -247,7 +312,7 @@ fn run_seq(prop: &str, input: &[u8], seq: &[Op], st: &mut Stats) {
     }
     if prop == "C15" {
         let a = &results[0].0;
-        for w in 1..3 {
+        for w in 1..results.len() {
             if results[w].0 != *a {
                 st.violate(
                     format!("C15 sources-disagree {} vs {}", names[0], names[w]),
@@ -319,6 +384,176 @@ pub fn explore(prop: &'static str, depth: usize, only: &Option<String>) -> Stats
                 }
                 idx[i] = 0;
             }
+        }
+    })
+}
+
+
+// ------------------------------------------------------------------------------------------------
+// Writer side: every primitive of `BinaryOutput`, called on the `SerializationContext` a field
+// codec is handed, must land where the field's bytes go - at top level, in a plain record, and in
+// chunk 0 / chunk 1 of an evolved record (where the context writes into a chunk buffer) - and be
+// the same bytes whatever the sink.
+
+#[derive(Clone, Copy, Debug, PartialEq)]
+enum WOp {
+    U8,
+    I8,
+    U16,
+    I16,
+    U32,
+    I32,
+    U64,
+    I64,
+    U128,
+    I128,
+    F32,
+    F64,
+    Bytes0,
+    Bytes3,
+    VarU1,
+    VarU5,
+    VarINeg,
+    Compressed,
+}
+
+const WOPS: [WOp; 18] = [
+    WOp::U8, WOp::I8, WOp::U16, WOp::I16, WOp::U32, WOp::I32, WOp::U64, WOp::I64, WOp::U128, WOp::I128, WOp::F32, WOp::F64,
+    WOp::Bytes0, WOp::Bytes3, WOp::VarU1, WOp::VarU5, WOp::VarINeg, WOp::Compressed,
+];
+
+fn w_apply<O: desert::BinaryOutput>(op: WOp, o: &mut O) -> desert::Result<()> {
+    match op {
+        WOp::U8 => o.write_u8(0x81),
+        WOp::I8 => o.write_i8(-2),
+        WOp::U16 => o.write_u16(0x8102),
+        WOp::I16 => o.write_i16(-259),
+        WOp::U32 => o.write_u32(0x8102_0304),
+        WOp::I32 => o.write_i32(-16_909_061),
+        WOp::U64 => o.write_u64(0x8102_0304_0506_0708),
+        WOp::I64 => o.write_i64(-72_623_859_790_382_857),
+        WOp::U128 => o.write_u128(0x8102_0304_0506_0708_090a_0b0c_0d0e_0f10),
+        WOp::I128 => o.write_i128(-2),
+        WOp::F32 => o.write_f32(-1.5),
+        WOp::F64 => o.write_f64(f64::MIN_POSITIVE),
+        WOp::Bytes0 => o.write_bytes(&[]),
+        WOp::Bytes3 => o.write_bytes(&[0xca, 0xfe, 0x00]),
+        WOp::VarU1 => o.write_var_u32(0x7f),
+        WOp::VarU5 => o.write_var_u32(u32::MAX),
+        WOp::VarINeg => o.write_var_i32(-300),
+        WOp::Compressed => return o.write_compressed(b"aaaaaaaaaaaaaaaaaaaaaaaab", Default::default()),
+    }
+    Ok(())
+}
+
+/// what the format prescribes for each primitive (the compressed frame: both lengths, then the
+/// sink-independent DEFLATE bytes, taken from the plain `Vec` sink and checked by C16)
+fn w_reference(op: WOp) -> Vec<u8> {
+    use refmodel::wire::{vari, varu};
+    match op {
+        WOp::U8 => vec![0x81],
+        WOp::I8 => vec![0xfe],
+        WOp::U16 => 0x8102u16.to_be_bytes().to_vec(),
+        WOp::I16 => (-259i16).to_be_bytes().to_vec(),
+        WOp::U32 => 0x8102_0304u32.to_be_bytes().to_vec(),
+        WOp::I32 => (-16_909_061i32).to_be_bytes().to_vec(),
+        WOp::U64 => 0x8102_0304_0506_0708u64.to_be_bytes().to_vec(),
+        WOp::I64 => (-72_623_859_790_382_857i64).to_be_bytes().to_vec(),
+        WOp::U128 => 0x8102_0304_0506_0708_090a_0b0c_0d0e_0f10u128.to_be_bytes().to_vec(),
+        WOp::I128 => (-2i128).to_be_bytes().to_vec(),
+        WOp::F32 => (-1.5f32).to_bits().to_be_bytes().to_vec(),
+        WOp::F64 => f64::MIN_POSITIVE.to_bits().to_be_bytes().to_vec(),
+        WOp::Bytes0 => vec![],
+        WOp::Bytes3 => vec![0xca, 0xfe, 0x00],
+        WOp::VarU1 => varu(0x7f),
+        WOp::VarU5 => varu(u32::MAX),
+        WOp::VarINeg => vari(-300),
+        WOp::Compressed => {
+            let mut v: Vec<u8> = Vec::new();
+            let _ = w_apply(WOp::Compressed, &mut v);
+            v
+        }
+    }
+}
+
+struct WriteScript(Vec<WOp>);
+
+impl desert::BinarySerializer for WriteScript {
+    fn serialize<O: desert::BinaryOutput>(&self, ctx: &mut desert::SerializationContext<O>) -> desert::Result<()> {
+        for op in &self.0 {
+            w_apply(*op, ctx)?;
+        }
+        Ok(())
+    }
+}
+
+/// all scripts up to `depth` over the 18 primitives x 4 placements x 3 sinks
+pub fn explore_writes(depth: usize, only: &Option<String>) -> Stats {
+    use bridge::tables::{encode_at_sinks, frame_at, GRAPH_PLACES};
+    let mut scripts: Vec<Vec<WOp>> = vec![vec![]];
+    let mut frontier: Vec<Vec<WOp>> = vec![vec![]];
+    for _ in 0..depth {
+        let mut next = Vec::new();
+        for p in &frontier {
+            for o in WOPS {
+                let mut q = p.clone();
+                q.push(o);
+                next.push(q);
+            }
+        }
+        scripts.extend(next.iter().cloned());
+        frontier = next;
+    }
+    if let Some(k) = only {
+        match k.strip_prefix("writes:") {
+            Some(l) => scripts.retain(|s| format!("{s:?}") == l),
+            None => return Stats::default(),
+        }
+    }
+    par_items(&scripts, Some(bridge::rt::hang_limit()), &|_| {}, &|script: &Vec<WOp>, st: &mut Stats| {
+        let key = format!("writes:{script:?}");
+        // a compressed frame reference that failed to build would make every comparison void
+        let inner: Vec<u8> = script.iter().flat_map(|o| w_reference(*o)).collect();
+        // the plain Vec as a BinaryOutput
+        let mut direct: Vec<u8> = Vec::new();
+        let (d, _) = guarded(|| {
+            for o in script {
+                w_apply(*o, &mut direct)?;
+            }
+            Ok(())
+        });
+        st.states += 1;
+        st.validated += 1;
+        if !d.is_ok() || direct != inner {
+            st.violate("C15 output-primitives on a plain Vec differ from the format".into(), key.clone(), json!({"script": format!("{script:?}"), "bytes": hex(&direct), "prescribed": hex(&inner)}));
+            return;
+        }
+        for place in GRAPH_PLACES {
+            let want = frame_at(&inner, place);
+            let (v, b, z) = encode_at_sinks(&WriteScript(script.clone()), place);
+            st.states += 1;
+            st.transitions += 3;
+            st.validated += 3;
+            let problems: Vec<String> = [
+                (!matches!(&v, Out::Ok(x) if *x == want)).then(|| format!("Vec: {}", match &v { Out::Ok(x) => hex(x), o => o.class() })),
+                (!matches!(&b, Out::Ok(x) if *x == want)).then(|| format!("BytesMut: {}", match &b { Out::Ok(x) => hex(x), o => o.class() })),
+                (!matches!(&z, Out::Ok(n) if *n == want.len())).then(|| format!("SizeCalculator: {}", match &z { Out::Ok(n) => n.to_string(), o => o.class() })),
+            ]
+            .into_iter()
+            .flatten()
+            .collect();
+            if !problems.is_empty() {
+                let first_op = script.iter().find(|o| true).map(|o| format!("{o:?}")).unwrap_or_default();
+                let _ = first_op;
+                st.violate(
+                    format!("C15 output-primitives written by a field codec are misplaced placement={place:?} sink={}", problems[0].split(':').next().unwrap_or("?")),
+                    key.clone(),
+                    json!({"script": format!("{script:?}"), "placement": format!("{place:?}"), "prescribed": hex(&want), "got": problems}),
+                );
+                return;
+            }
+            st.bump("output-primitives:placed-as-prescribed");
+            st.nontrivial += 1;
         }
     })
 }
